@@ -84,9 +84,10 @@ class Path:
         self.cases = []      # description of the residue classes chosen
         self.ret = None; self.steps = 0
         self.alias = {}
+        self.calls = []      # uninterpreted side-effect-free calls made on this path: (callee, argument keys)
     def fork(self):
         p = Path(); p.subst = dict(self.subst); p.local = dict(self.local); p.reads = dict(self.reads); p.writes = dict(self.writes)
-        p.offs = dict(self.offs); p.cases = list(self.cases); p.steps = self.steps; p.alias = dict(self.alias)
+        p.offs = dict(self.offs); p.cases = list(self.cases); p.steps = self.steps; p.alias = dict(self.alias); p.calls = list(self.calls)
         return p
 
 
@@ -335,6 +336,7 @@ class E2:
                         if isinstance(a, Ptr): return ("ptr", a.base, self.apply(a.off, path).key())
                         if isinstance(a, Lin): return self.apply(a, path).key()
                         return repr(a)
+                    path.calls.append((c, tuple(akey(a) for a in cargs)))
                     env[i.id] = Lin.atom(("call", c) + tuple(akey(a) for a in cargs)); continue
                 for p2 in results:
                     env2 = dict(env); env2[i.id] = p2.ret; p2.ret = None
